@@ -326,6 +326,7 @@ class Engine:
             tags=dict(st.tags),
         )
         self.obligations.append(ob)
+        return ob
 
     def field_ty(self, cls, name):
         for c in self.prog.mro(cls) if cls else []:
@@ -519,7 +520,8 @@ class Engine:
                     self.oblige(f, f"no-raise-cond:{exn}:{label}", z3.Not(when), "post",
                                 detail="normal return although the contract says this request raises")
                 for nm, p in contract.ensures(c):
-                    self.oblige(f, f"ensures:{nm}", p, "post")
+                    ob = self.oblige(f, f"ensures:{nm}", p, "post")
+                    ob.heaps["recheck"] = (contract, h0, hfin, args, nm)
                 self.frame_obligations(f, h0, hfin, contract.modifies(c0), "frame")
             elif f.status == "raise":
                 exn, node = f.exc
@@ -1632,12 +1634,46 @@ class Engine:
             return z3.BoolVal(a.t == b.t)
         if ka == "opt" and kb == "int":
             return z3.And(z3.Not(a.aux), a.t.t == b.t)
+        if ka == "list" and kb == "list":
+            return self.list_equal(a, b, st, node, 0)
+        if ka == "ref" and kb == "ref":
+            return self.ref_equal(a, b, st, node)
         hook = getattr(self.cur, "eq_hook", None)
         if hook is not None:
             r = hook(self, a, b, st, node)
             if r is not None:
                 return r
         raise OutsideSubset(f"== between {a.ty} and {b.ty} at line {node.lineno}")
+
+    def ref_equal(self, a: Val, b: Val, st, node):
+        """`==` on objects: the class's __eq__ through its contract (spec_eq), identity if
+        the class defines none"""
+        cls = a.ty.arg
+        fi = self.prog.find_method(cls, "__eq__")
+        if fi is None:
+            return a.t == b.t
+        con = self.reg.get(fi.qualname)
+        if con is None or not hasattr(con, "spec_eq"):
+            raise OutsideSubset(f"== on {cls} objects but {fi.qualname} has no contract with spec_eq")
+        return con.spec_eq(st.heap, a.t, b.t)
+
+    def elem_equal(self, ety, x, y, st, node, depth):
+        if ety.kind in ("int", "bool", "any"):
+            return x == y
+        if ety.kind == "ref":
+            return self.ref_equal(Val(ety, x), Val(ety, y), st, node)
+        if ety.kind == "list":
+            return self.list_equal(Val(ety, x), Val(ety, y), st, node, depth + 1)
+        raise OutsideSubset(f"== on list elements of type {ety}")
+
+    def list_equal(self, a: Val, b: Val, st, node, depth):
+        """python list equality: same length and element-wise =="""
+        q = z3.Int(f"?eq{depth}")
+        h = st.heap
+        ety = a.ty.arg if a.ty.arg.kind != "any" else b.ty.arg
+        same = self.elem_equal(ety, h.at(a, q), h.at(b, q), st, node, depth)
+        return z3.And(h.len(a) == h.len(b),
+                      forall([q], z3.Implies(z3.And(q >= 0, q < h.len(a)), same)))
 
     def contains(self, coll: Val, x: Val, st):
         k = coll.ty.kind
